@@ -17,6 +17,13 @@ impl<Iter32: Iterator, Iter64: Iterator> Iterator for Wrap<Iter32, Iter64> {
 			Wrap::T64(iter64) => iter64.next().map(Wrap::T64),
 		}
 	}
+	#[inline]
+	fn size_hint(&self) -> (usize, Option<usize>) {
+		match self {
+			Wrap::T32(iter32) => iter32.size_hint(),
+			Wrap::T64(iter64) => iter64.size_hint(),
+		}
+	}
 }
 
 impl<T32, T64> Wrap<Result<T32>, Result<T64>> {
